@@ -51,6 +51,76 @@ theorem minLoop_eq (a : α) (rest : List α) : minLoop (a :: rest) = rest.foldl 
   · rename_i h; exact (min_eq_right (le_of_lt h)).symm
   · rename_i h; exact (min_eq_left (not_lt.mp h)).symm
 
+private theorem foldl_max_spec (rest : List α) : ∀ a : α,
+    (∀ v ∈ a :: rest, v ≤ rest.foldl max a) ∧ rest.foldl max a ∈ a :: rest := by
+  induction rest with
+  | nil => intro a; simp
+  | cons b l ih =>
+    intro a
+    obtain ⟨h1, h2⟩ := ih (max a b)
+    simp only [List.foldl_cons]
+    constructor
+    · intro v hv
+      rcases List.mem_cons.mp hv with rfl | hv
+      · exact le_trans (le_max_left _ _) (h1 _ (List.mem_cons_self))
+      · rcases List.mem_cons.mp hv with rfl | hv
+        · exact le_trans (le_max_right _ _) (h1 _ (List.mem_cons_self))
+        · exact h1 v (List.mem_cons_of_mem _ hv)
+    · rcases List.mem_cons.mp h2 with h | h
+      · rw [h]
+        rcases max_choice a b with e | e <;> rw [e] <;> simp
+      · exact List.mem_cons_of_mem _ (List.mem_cons_of_mem _ h)
+
+private theorem foldl_min_spec (rest : List α) : ∀ a : α,
+    (∀ v ∈ a :: rest, rest.foldl min a ≤ v) ∧ rest.foldl min a ∈ a :: rest := by
+  induction rest with
+  | nil => intro a; simp
+  | cons b l ih =>
+    intro a
+    obtain ⟨h1, h2⟩ := ih (min a b)
+    simp only [List.foldl_cons]
+    constructor
+    · intro v hv
+      rcases List.mem_cons.mp hv with rfl | hv
+      · exact le_trans (h1 _ (List.mem_cons_self)) (min_le_left _ _)
+      · rcases List.mem_cons.mp hv with rfl | hv
+        · exact le_trans (h1 _ (List.mem_cons_self)) (min_le_right _ _)
+        · exact h1 v (List.mem_cons_of_mem _ hv)
+    · rcases List.mem_cons.mp h2 with h | h
+      · rw [h]
+        rcases min_choice a b with e | e <;> rw [e] <;> simp
+      · exact List.mem_cons_of_mem _ (List.mem_cons_of_mem _ h)
+
+/-- **`MaxTerm` is the greatest argument**: an upper bound of every argument that is itself one of them. -/
+theorem maxLoop_spec (vs : List α) (hne : vs ≠ []) : (∀ v ∈ vs, v ≤ maxLoop vs) ∧ maxLoop vs ∈ vs := by
+  cases vs with
+  | nil => exact absurd rfl hne
+  | cons a rest => rw [maxLoop_eq]; exact foldl_max_spec rest a
+
+/-- **`MinTerm` is the least argument.** -/
+theorem minLoop_spec (vs : List α) (hne : vs ≠ []) : (∀ v ∈ vs, minLoop vs ≤ v) ∧ minLoop vs ∈ vs := by
+  cases vs with
+  | nil => exact absurd rfl hne
+  | cons a rest => rw [minLoop_eq]; exact foldl_min_spec rest a
+
+/-- **the order of the arguments of `Max` / `Min` does not matter**, for any number of arguments (the loop compares
+with a strict inequality and keeps the first of equal values; the value is the same either way). -/
+theorem maxLoop_perm (vs ws : List α) (h : vs.Perm ws) : maxLoop vs = maxLoop ws := by
+  by_cases hne : vs = []
+  · subst hne; rw [List.nil_perm.mp h]
+  · have hne' : ws ≠ [] := fun e => hne (List.perm_nil.mp (e ▸ h))
+    obtain ⟨a1, a2⟩ := maxLoop_spec vs hne
+    obtain ⟨b1, b2⟩ := maxLoop_spec ws hne'
+    exact le_antisymm (b1 _ (h.mem_iff.mp a2)) (a1 _ (h.mem_iff.mpr b2))
+
+theorem minLoop_perm (vs ws : List α) (h : vs.Perm ws) : minLoop vs = minLoop ws := by
+  by_cases hne : vs = []
+  · subst hne; rw [List.nil_perm.mp h]
+  · have hne' : ws ≠ [] := fun e => hne (List.perm_nil.mp (e ▸ h))
+    obtain ⟨a1, a2⟩ := minLoop_spec vs hne
+    obtain ⟨b1, b2⟩ := minLoop_spec ws hne'
+    exact le_antisymm (a1 _ (h.mem_iff.mpr b2)) (b1 _ (h.mem_iff.mp a2))
+
 /-- **`volume` reads 1 where no volume is in play**: `evaluate` is `volume_evaluate` at volume 1. -/
 theorem volEval_one (e : Term α) (x p : Nat → α) (t : α) : e.eval x p t = e.volEval x p 1 t := rfl
 
